@@ -627,9 +627,10 @@ impl Debugger {
 
     /// Returns `None` if `pc + offset` is out of bounds.
     fn add_address_offset(&self, address: u16, offset: i16) -> Option<u16> {
-        let address = (address as i16).checked_add(offset)?;
+        // Widened: neither addresses above 0x7FFF nor sums beyond 16 bits may wrap
+        let address = address as i32 + offset as i32;
         // Check address in user program area
-        if address >= self.orig() as i16 && (address as u16) < USER_MEMORY_END {
+        if address >= self.orig() as i32 && address < USER_MEMORY_END as i32 {
             Some(address as u16)
         } else {
             None
